@@ -22,7 +22,7 @@
 (*     WF           C14, MetaTruthful C06, DiagSound C16                   *)
 (*   every state is emitted (Binding A) and run on SQLite by the harness.  *)
 (***************************************************************************)
-EXTENDS RA_SqlSem, RA_Diag, Json
+EXTENDS RA_SqlCompile, RA_Diag, Json
 
 CONSTANTS Contents, BoundModes, MenuKind, MaxDepth, StartChain, Emit
 
@@ -189,6 +189,14 @@ ListMatches == Ord => Den(rel, Env) = ref /\ Den(rel, Rev) = ref
 TargetMatches == Det => SameBag(DenT(rel, Env), ref)      \* the select read through its target chain
 Conformed == Conform(rel) = rel /\ MarkerCoherent(rel)
 WF == WellFormed(rel)
+
+\* the compilation model: total on every reachable tree (C08), and what the
+\* statement returns on the database - for both physical table orders - is
+\* the reference bag / list whenever that is determined (C02 / C11)
+Stmt == CompileTop(rel)
+CompileTotal == ~IsErr(Stmt)
+CompileBag == (Det /\ ~IsErr(Stmt)) => SameBag(RunSql(Stmt, Env, FALSE), ref) /\ SameBag(RunSql(Stmt, Env, TRUE), ref)
+CompileList == (Ord /\ ~IsErr(Stmt)) => RunSql(Stmt, Env, FALSE) = ref /\ RunSql(Stmt, Env, TRUE) = ref
 StrictlyCoherent == StrictCoherent(rel, TRUE)
 \* companion (expected to FAIL): open finding F15 still occurs
 KF15Gone == StrictCoherent(rel, FALSE)
@@ -290,6 +298,7 @@ EmitState ==
                       trivial |-> Trivial(rel), jid |-> JoinIdentity(rel)],
             doomed |-> <<d0.doomed, d1.doomed>>,
             nested |-> NestedCompound(rel),
+            shape |-> (IF IsErr(Stmt) THEN [q |-> "error"] ELSE Shape(Stmt)),
             rawconf |-> RawConf,
             rawdet |-> (~IsErr(RawConf) /\ BagDet(RawConf, Env) /\ BagDet(RawConf, Rev)),
             rawnested |-> (~IsErr(RawConf) /\ NestedCompound(RawConf)),
